@@ -48,6 +48,9 @@ def run(ctx, res):
 
 
 # ---------------------------------------------------------------------------------------------
+    # ---- properties this one rests on (re-run here, labelled <this>.D.<rule>) ------------------
+    depends(ctx, res, 'C14', None, 'the same result under every interleaving presupposes that jobs share no unsynchronised state')
+
 def _loop_of(f, node):
     """The innermost While/Do/For statement enclosing node."""
     for a in f.ancestors(node):
